@@ -44,7 +44,7 @@ def gen_one(rng, i, tier):
     rs = sorted(set([rng.random() for _ in range(3)] + [rng.choice([0.0, 1.0, 0.5, 0.25])]))
     return {"stream": stream, "pos": pos, "neg": neg, "ep": ep, "en": en, "sc": sc, "ec": ec, "ts": ts,
             "rs": rs, "a": rng.choice([0.5, 2.0, 4.0]), "b": rng.choice([0.0, 1.0, -0.75, 3.5]),
-            "tiefree": tiefree}
+            "tiefree": tiefree, "G": rng.choice([1, 2, 3]), "gsalt": rng.randint(0, 10**6)}
 
 
 def nontrivial(inp):
@@ -169,6 +169,55 @@ def build(inp) -> Case:
                 pre.append(Issue("PROPFAIL", "raises", f"auc raised: {a0[1:]} {a1[1:]} {a2[1:]}", "auc/raises"))
             elif abs(a1[1] - a0[1]) > 1e-9 or abs(a2[1] - a0[1]) > 1e-9:
                 pre.append(Issue("PROPFAIL", "auc-symmetry", f"auc[{lo},{hi}] original {a0[1]}, negated {a1[1]}, image {a2[1]}", "auc/symmetry"))
+    # ---- the same three symmetries for GroupScores (group_scores.py: swap() and the per-group objects): per-group
+    # matrices / rates of the transformed object against those of the original, group by group
+    if pos and neg and inp.get("G"):
+        from score_analysis import GroupScores
+        G, salt = inp["G"], inp.get("gsalt", 0)
+        pg = ["g%d" % ((k * 7 + salt) % G) for k in range(len(pos))]
+        ng = ["g%d" % ((k * 5 + salt // 7) % G) for k in range(len(neg))]
+
+        def mk(p_, n_, sc_, ec_):
+            return GroupScores(p_, n_, pos_groups=pg, neg_groups=ng, score_class=sc_, equal_class=ec_)
+
+        def gcm(o_, t_):
+            r_ = common.call(o_.group_cm, np.array(t_, dtype=float))
+            return r_ if r_[0] == "exc" else ("ok", np.asarray(r_[1].matrix if hasattr(r_[1], "matrix") else r_[1]))
+
+        g0 = common.call(mk, pos, neg, sc, ec)
+        if g0[0] == "exc":
+            pre.append(Issue("PROPFAIL", "raises", f"GroupScores(...) raised {g0[1]}: {g0[2]}", "group/raises"))
+        else:
+            gs = g0[1]
+            gsw = common.call(gs.swap)
+            if gsw[0] == "exc":
+                pre.append(Issue("PROPFAIL", "raises", f"GroupScores.swap() raised {gsw[1]}: {gsw[2]}", "group/raises"))
+            else:
+                for m1, m2 in (("fpr", "fnr"), ("tpr", "tnr"), ("topr", "tonr")):
+                    for x, y in ((m1, m2), (m2, m1)):
+                        u_ = common.call(getattr(gs, "group_" + x), tarr)
+                        v_ = common.call(getattr(gsw[1], "group_" + y), tarr)
+                        if u_[0] == "exc" or v_[0] == "exc" or not np.array_equal(np.asarray(u_[1]), np.asarray(v_[1]), equal_nan=True):
+                            pre.append(Issue("PROPFAIL", "swap-rates", f"GroupScores (groups {pg}/{ng}): group_{x} of the original != group_{y} "
+                                             f"of swap() at {ts}: {u_[1] if u_[0]=='exc' else np.asarray(u_[1]).tolist()} vs "
+                                             f"{v_[1] if v_[0]=='exc' else np.asarray(v_[1]).tolist()}", f"group/swap/{x}"))
+            m0 = gcm(gs, ts)
+            gn_ = common.call(mk, npos, nneg, flip[sc], ec)
+            m1_ = gcm(gn_[1], nts) if gn_[0] == "ok" else gn_
+            if m0[0] == "exc" or m1_[0] == "exc":
+                pre.append(Issue("PROPFAIL", "raises", f"GroupScores.group_cm raised: {m0[1:]}, {m1_[1:]}", "group/raises"))
+            elif not np.array_equal(m0[1], m1_[1]):
+                pre.append(Issue("PROPFAIL", "relation-same", f"GroupScores (groups {pg}/{ng}): group_cm({ts}) = {m0[1].tolist()} but the negated "
+                                 f"object with flipped score_class gives {m1_[1].tolist()} at the negated thresholds", "group/negate"))
+            if inp["stream"] == "exact":
+                ga_ = common.call(mk, apos, aneg, sc, ec)
+                m2_ = gcm(ga_[1], ats) if ga_[0] == "ok" else ga_
+                m0k = gcm(gs, [ts[k] for k in keep])
+                if m2_[0] == "exc" or m0k[0] == "exc":
+                    pre.append(Issue("PROPFAIL", "raises", f"GroupScores.group_cm raised: {m2_[1:]}", "group/raises"))
+                elif not np.array_equal(m0k[1], m2_[1]):
+                    pre.append(Issue("PROPFAIL", "relation-same", f"GroupScores (groups {pg}/{ng}): group_cm differs between the original and "
+                                     f"its image under {a}*s+{b} at the mapped thresholds", "group/affine"))
     inp["_evals"] = 4 * len(ts) + 18 * len(inp["rs"]) + 8
     tags = [inp["stream"], f"cfg={sc},{ec}"]
     if ep or en:
